@@ -23,6 +23,57 @@ MDMF_DV = ("    INNER_URI_CLASS=MDMFVerifierURI\n\n"
            "    def is_mutable(self):\n"
            "        return False\n")
 
+FS_DEF = ("ALLEGED_IMMUTABLE_PREFIX = b'imm.'\n\n"
+          "def from_string(u, deep_immutable=False, name=u\"<unknown name>\"):\n"
+          "    \"\"\"Create URI from either unicode or byte string.\"\"\"\n")
+FS_PRELUDE_END = ("        raise TypeError(\"URI must be unicode string or bytes: %r\" % (u,))\n\n"
+                  "    # We allow and check ALLEGED_READONLY_PREFIX")
+FS_SPLIT = ("        raise TypeError(\"URI must be unicode string or bytes: %r\" % (u,))\n\n"
+            "    return _parse(u, deep_immutable, name)\n\n"
+            "def _parse(u, deep_immutable, name):\n"
+            "    # We allow and check ALLEGED_READONLY_PREFIX")
+FS_MEMO_BY_STRING = ("        raise TypeError(\"URI must be unicode string or bytes: %r\" % (u,))\n\n"
+                     "    try:\n"
+                     "        return _parsed_caps[u]\n"
+                     "    except KeyError:\n"
+                     "        pass\n"
+                     "    cap = _parse(u, deep_immutable, name)\n"
+                     "    if not isinstance(cap, UnknownURI):\n"
+                     "        _parsed_caps[u] = cap\n"
+                     "    return cap\n\n"
+                     "def _parse(u, deep_immutable, name):\n"
+                     "    # We allow and check ALLEGED_READONLY_PREFIX")
+FS_MEMO_BY_CONTEXT = ("        raise TypeError(\"URI must be unicode string or bytes: %r\" % (u,))\n\n"
+                      "    key = (u, deep_immutable)\n"
+                      "    cap = _parsed_caps.get(key)\n"
+                      "    if cap is None:\n"
+                      "        cap = _parse(u, deep_immutable, name)\n"
+                      "        if not isinstance(cap, UnknownURI):\n"
+                      "            _parsed_caps[key] = cap\n"
+                      "    return cap\n\n"
+                      "def _parse(u, deep_immutable, name):\n"
+                      "    # We allow and check ALLEGED_READONLY_PREFIX")
+FS_MEMO_DECL = FS_DEF.replace("\n\ndef from_string(", "\n\n_parsed_caps = {}  # cap string -> cap object\n\ndef from_string(")
+FS_WRAPPED_GET = ("ALLEGED_IMMUTABLE_PREFIX = b'imm.'\n\n"
+                  "_recent_caps = {}\n\n"
+                  "def from_string(u, deep_immutable=False, name=u\"<unknown name>\"):\n"
+                  "    \"\"\"Create URI from either unicode or byte string.\"\"\"\n"
+                  "    cap = _recent_caps.get(u)\n"
+                  "    if cap is None:\n"
+                  "        cap = _from_string(u, deep_immutable, name)\n"
+                  "        if not isinstance(cap, UnknownURI):\n"
+                  "            _recent_caps[u] = cap\n"
+                  "    return cap\n\n"
+                  "def _from_string(u, deep_immutable, name):\n")
+FS_HELPER_NO_CTX = ("        raise TypeError(\"URI must be unicode string or bytes: %r\" % (u,))\n\n"
+                    "    return _parse(u, name=name)\n\n"
+                    "def _parse(u, deep_immutable=False, name=u\"<unknown name>\"):\n"
+                    "    # We allow and check ALLEGED_READONLY_PREFIX")
+UN_MOVE = ("                given_ro_uri = given_rw_uri\n"
+           "                given_rw_uri = None\n")
+UN_BOTH_IMM = ("            elif given_ro_uri.startswith(ALLEGED_IMMUTABLE_PREFIX):\n"
+               "                # Strange corner case")
+
 MUTANTS = [
     # ---- C16.1 diminishing constructors
     M("ssk-readonly-gets-writekey", U, "return ReadonlySSKFileURI(self.readkey, self.fingerprint)",
@@ -115,6 +166,31 @@ MUTANTS = [
     M("dirnode-children-always-mutable-ctx", DN, "deep_immutable=not self.is_mutable(),", "deep_immutable=False,", "C16.7"),
     M("benign-cache-key-tuple", NM, "        if deep_immutable:\n            memokey = b\"I\" + bigcap\n        else:\n            memokey = b\"M\" + bigcap\n",
       "        memokey = (deep_immutable, bigcap)\n", None),
+    # ---- C16.5 still decided when the parse lives in a helper
+    M("helper-ssk-guard-dropped", U, FS_PRELUDE_END, FS_SPLIT, "C16.5", edits=[(U,
+      "        elif s.startswith(b'URI:SSK:'):\n            if can_be_writeable:\n                return WriteableSSKFileURI.init_from_string(s)\n            kind = \"URI:SSK file writecap\"\n",
+      "        elif s.startswith(b'URI:SSK:'):\n            return WriteableSSKFileURI.init_from_string(s)\n")]),
+    M("helper-flags-ignore-context", U, FS_PRELUDE_END, FS_SPLIT, "C16.5", edits=[(U,
+      "can_be_mutable = can_be_writeable = not deep_immutable", "can_be_mutable = can_be_writeable = True")]),
+    # ---- C16.8 UnknownNode: an alleged ro./imm. cap never stays in the write slot
+    M("unknown-prefixed-cap-stays-rw", K, UN_MOVE, "                given_ro_uri = given_rw_uri\n", "C16.8"),
+    M("unknown-rw-cleared-only-for-imm", K, UN_MOVE,
+      "                given_ro_uri = given_rw_uri\n"
+      "                if given_rw_uri.startswith(ALLEGED_IMMUTABLE_PREFIX):\n"
+      "                    given_rw_uri = None\n", "C16.8"),
+    M("unknown-rw-falls-back-to-ro", K, "            self.rw_uri = given_rw_uri\n", "            self.rw_uri = given_rw_uri or given_ro_uri\n", "C16.8"),
+    M("unknown-rw-with-imm-ro-accepted", K, UN_BOTH_IMM,
+      "            elif given_ro_uri.startswith(ALLEGED_IMMUTABLE_PREFIX) and deep_immutable:\n"
+      "                # Strange corner case", "C16.8"),
+    M("benign-unknown-move-tuple-assign", K, UN_MOVE, "                given_ro_uri, given_rw_uri = given_rw_uri, None\n", None),
+    M("benign-unknown-move-via-temp", K, UN_MOVE,
+      "                cap = given_rw_uri\n                given_rw_uri = None\n                given_ro_uri = cap\n", None),
+    # ---- C16.9 from_string's result depends on this call's context
+    M("from-string-memo-by-string", U, FS_DEF, FS_MEMO_DECL, "C16.9", edits=[(U, FS_PRELUDE_END, FS_MEMO_BY_STRING)]),
+    M("from-string-wrapped-get-by-string", U, FS_DEF, FS_WRAPPED_GET, "C16.9"),
+    M("from-string-helper-loses-context", U, FS_PRELUDE_END, FS_HELPER_NO_CTX, "C16.9"),
+    M("benign-from-string-body-in-helper", U, FS_PRELUDE_END, FS_SPLIT, None),
+    M("benign-from-string-memo-by-context", U, FS_DEF, FS_MEMO_DECL, None, edits=[(U, FS_PRELUDE_END, FS_MEMO_BY_CONTEXT)]),
     # ---- vanished anchor
     M("vanish-wrap-dirnode-cap", U, "def wrap_dirnode_cap(filecap):", "def wrap_dirnode_capX(filecap):", "ANALYSIS-ERROR"),
 ]
